@@ -149,6 +149,7 @@ func c13ChildRun(c *Ctx) {
 		_ = netlink.LinkSetUp(lo)
 	}
 	pr := datapath.NewPolicyRoute()
+	c13TeardownOthers(c)
 	nScen := c.Scale(6, 40)
 	for sc := 0; sc < nScen; sc++ {
 		var lines []Line
@@ -337,5 +338,71 @@ func c13ChildRun(c *Ctx) {
 			}
 		}
 		c.Add(Case{Lines: lines, Nontrivial: true, Note: "kernel"})
+	}
+}
+
+// c13TeardownOthers: the host-namespace part of the ipvlan datapath's Teardown against this kernel.  The sandbox kernel has no
+// ipvlan driver, so Setup cannot run; what Setup leaves in the host namespace for a pod - the <address>/32 and <address>/128
+// routes on the slave link - is put there by hand (on a veth standing in for the slave link), then the REAL
+// IPvlanDriver.Teardown runs and every route to the pod's addresses must be gone.
+func c13TeardownOthers(c *Ctx) {
+	r := c.R
+	ctx := context.Background()
+	veth := &netlink.Veth{LinkAttrs: netlink.LinkAttrs{Name: "ipvl_s"}, PeerName: "ipvl_p"}
+	if err := netlink.LinkAdd(veth); err != nil {
+		c.Extra["ipvlan_teardown_env_error"] = err.Error()
+		return
+	}
+	defer func() { _ = netlink.LinkDel(veth) }()
+	l, err := netlink.LinkByName("ipvl_s")
+	if err != nil {
+		return
+	}
+	_ = netlink.LinkSetUp(l)
+	if p, err := netlink.LinkByName("ipvl_p"); err == nil {
+		_ = netlink.LinkSetUp(p)
+	}
+	drv := datapath.NewIPVlanDriver()
+	for i := 0; i < c.Scale(6, 30); i++ {
+		fam := Pick(r, []string{"4", "6", "46", "46"})
+		set := &terwayTypes.IPNetSet{}
+		var want []*net.IPNet
+		if strings.Contains(fam, "4") {
+			ip := net.IPv4(10, 77, byte(i), byte(10+r.Intn(200))).To4()
+			set.IPv4 = &net.IPNet{IP: ip, Mask: net.CIDRMask(24, 32)}
+			want = append(want, &net.IPNet{IP: ip, Mask: net.CIDRMask(32, 32)})
+		}
+		if strings.Contains(fam, "6") {
+			ip := net.ParseIP(fmt.Sprintf("fd77::%x:%x", i, 10+r.Intn(200)))
+			set.IPv6 = &net.IPNet{IP: ip, Mask: net.CIDRMask(64, 128)}
+			want = append(want, &net.IPNet{IP: ip, Mask: net.CIDRMask(128, 128)})
+		}
+		okEnv := true
+		for _, d := range want {
+			if err := netlink.RouteReplace(&netlink.Route{LinkIndex: l.Attrs().Index, Scope: netlink.SCOPE_LINK, Dst: d}); err != nil {
+				okEnv = false
+			}
+		}
+		if !okEnv {
+			c.Count("ipvlan-teardown-env-skip")
+			continue
+		}
+		op := fmt.Sprintf("# ipvlan-teardown fam=%s", fam)
+		err := drv.Teardown(ctx, &dtypes.TeardownCfg{HostVETHName: "none-such", ContainerIPNet: set}, nil)
+		left := ""
+		for _, d := range want {
+			rs, _ := netlink.RouteListFiltered(netlink.FAMILY_ALL, &netlink.Route{Dst: d}, netlink.RT_FILTER_DST)
+			if len(rs) > 0 {
+				left += " " + d.String()
+			}
+		}
+		if err != nil || left != "" {
+			c.Violate("C13/teardown/ipvlan-host-route-left", fmt.Sprintf("ipvlan Teardown (err=%v) of a pod with address families %s leaves the host-namespace route(s)%s on the slave link: traffic to a later owner of the address is misdelivered", err, fam, left), op)
+		}
+		for _, d := range want {
+			_ = netlink.RouteDel(&netlink.Route{LinkIndex: l.Attrs().Index, Scope: netlink.SCOPE_LINK, Dst: d})
+		}
+		c.Add(Case{Lines: []Line{{op, "#"}}, Nontrivial: fam == "46", Note: "kernel"})
+		c.Count("ipvlan-teardown")
 	}
 }
